@@ -398,6 +398,23 @@ impl<'a> Cur<'a> {
         }
         Ok(v)
     }
+    /// initial-balance rows of the bSei token: an address may also be written in UPPER CASE, which
+    /// is a second spelling of the same account (bech32 / the mock API canonicalise case-insensitively)
+    fn addr_amounts_alias(&mut self) -> Result<Vec<(String, u128)>, String> {
+        let n = self.count()?;
+        let mut v = Vec::with_capacity(n);
+        for _ in 0..n {
+            let t = self.next()?;
+            let a = if is_addr(t) || (is_addr(&t.to_lowercase()) && t == t.to_uppercase()) {
+                t.to_string()
+            } else {
+                return Err(format!("unknown address `{}`", t));
+            };
+            let x = self.u128()?;
+            v.push((a, x));
+        }
+        Ok(v)
+    }
     fn denoms(&mut self) -> Result<Vec<String>, String> {
         let n = self.count()?;
         let mut v = Vec::with_capacity(n);
@@ -540,7 +557,7 @@ fn parse_inner(c: &mut Cur) -> Result<Op, String> {
             }
             Op::InstReg { sender, hub, vals }
         }
-        "inst_bsei" => Op::InstBsei { sender: c.addr()?, hub: c.addr()?, balances: c.addr_amounts()? },
+        "inst_bsei" => Op::InstBsei { sender: c.addr()?, hub: c.addr()?, balances: c.addr_amounts_alias()? },
         "inst_stsei" => {
             let sender = c.addr()?;
             let hub = c.addr()?;
